@@ -1104,3 +1104,98 @@ func init() {
 		},
 	})
 }
+
+func init() {
+	register(&Rule{
+		ID: "C12-j", Template: "T1 must-traverse (commits go only after every sweep ran)",
+		Doc: "Prune can be interrupted and run again: what tells a later run that there is still something to collect is the unreachable commits — once they are deleted, Prune returns early ('nothing to remove'). In pkg/prune.Prune the phase that deletes commits (a call that is handed a function from which objects.DeleteCommit is reached) is therefore reachable only through the success edges of the phases that delete tables, blocks and block indices — each of them, unconditionally. A sweep that is skipped when *this* run removed no table ('nothing can have become orphaned') is wrong exactly after an interrupted run: the tables are already gone, the sweeps are skipped, the commits are deleted, and the blocks of the removed tables are never collected.",
+		Min: 3,
+		Run: func(p *Program, r *RuleResult) error {
+			fn, err := p.SSAFunc("pkg/prune.Prune")
+			if err != nil {
+				return err
+			}
+			kinds := map[string]map[*types.Func]bool{}
+			for _, k := range []string{"DeleteCommit", "DeleteTable", "DeleteBlock", "DeleteBlockIndex"} {
+				m, err := p.MustFuncs("pkg/objects." + k)
+				if err != nil {
+					return err
+				}
+				kinds[k] = m
+			}
+			r.Analysed = 1
+			var deletes func(f *ssa.Function, depth int, out map[string]bool)
+			deletes = func(f *ssa.Function, depth int, out map[string]bool) {
+				if f == nil || depth < 0 {
+					return
+				}
+				eachCall(f, func(c ssa.CallInstruction) {
+					for k, m := range kinds {
+						if isCallTo(c, m) != nil {
+							out[k] = true
+						}
+					}
+				})
+				for _, a := range f.AnonFuncs {
+					deletes(a, depth-1, out)
+				}
+			}
+			phase := map[string][]*ssa.Call{}
+			eachCall(fn, func(c ssa.CallInstruction) {
+				call, ok := c.(*ssa.Call)
+				if !ok {
+					return
+				}
+				out := map[string]bool{}
+				for _, a := range c.Common().Args {
+					if _, isSig := a.Type().Underlying().(*types.Signature); !isSig {
+						continue
+					}
+					if ct, ok := a.(*ssa.ChangeType); ok {
+						a = ct.X // a closure converted to the named function type
+					}
+					switch x := a.(type) {
+					case *ssa.MakeClosure:
+						f, _ := x.Fn.(*ssa.Function)
+						deletes(f, 2, out)
+					case *ssa.Function:
+						deletes(x, 2, out)
+					case *ssa.Call:
+						deletes(x.Call.StaticCallee(), 2, out)
+					}
+				}
+				for k := range out {
+					phase[k] = append(phase[k], call)
+				}
+			})
+			commits := phase["DeleteCommit"]
+			if len(commits) == 0 {
+				return &AnchorError{"the phase of Prune that deletes commits"}
+			}
+			for _, k := range []string{"DeleteTable", "DeleteBlock", "DeleteBlockIndex"} {
+				key := funcName(fn) + "|" + k + "-before-commits"
+				what := "commits are deleted only after the " + k + " sweep ran successfully"
+				if len(phase[k]) == 0 {
+					r.bad(key, p.Rel(fn.Pos()), what, "Prune has no phase from which objects."+k+" is reached")
+					continue
+				}
+				var permits []edge
+				for _, c := range phase[k] {
+					permits = append(permits, successEdges(fn, c)...)
+				}
+				bad := ""
+				for _, cc := range commits {
+					if path, reach := reachAfter(fn, nil, cc, mkCut(permits), nil); reach {
+						bad = fmtPath("the phase that deletes commits ("+p.Rel(cc.Pos())+") is reachable without the "+k+" sweep having run", path)
+					}
+				}
+				if bad != "" {
+					r.bad(key, p.Rel(phase[k][0].Pos()), what, bad)
+				} else {
+					r.ok(key, p.Rel(phase[k][0].Pos()), what)
+				}
+			}
+			return nil
+		},
+	})
+}
